@@ -53,7 +53,7 @@ func execJSONCutManyWith(cs hx.Sx, shared decoder.Decoder) hx.Sx {
 	vin := json.Valid(data)
 	d, err := shared, error(nil)
 	if d == nil {
-		d, err = decoder.NewJsonDecoder(decoder.Params{"json_max_fields_size": limits})
+		d, err = decoder.New(decoder.TypeFromString("json"), decoder.Params{"json_max_fields_size": limits})
 	}
 	if err != nil {
 		for i := range groups {
@@ -487,7 +487,7 @@ func genJSONCut(c *hmain.Ctx) {
 			limits["a|@this"], limits["[b,a].0"] = lu, lu+1
 			pathLimits = append(pathLimits, hx.L(hx.S("a|@this"), hx.I(lu)), hx.L(hx.S("[b,a].0"), hx.I(lu+1)))
 		}
-		d, err := decoder.NewJsonDecoder(decoder.Params{"json_max_fields_size": limits})
+		d, err := decoder.New(decoder.TypeFromString("json"), decoder.Params{"json_max_fields_size": limits})
 		if err != nil {
 			continue
 		}
@@ -538,6 +538,28 @@ func genJSONCut(c *hmain.Ctx) {
 	for i := 0; i < 300*c.Scale; i++ {
 		doc := `{"a":` + q(plain(0, 12)) + `,"b":1}`
 		c.Do("json-cut-negative-limit", 8, hx.L(hx.L(hx.S("a"), hx.I(-1-r.Intn(12))), hx.S(doc)), true)
+	}
+	// ---- json-cut-empty-path: "" as a configured path (json.go:83: nothing to look up, gjson is not asked), alone (the
+	// fast way) and among paths that do cut; documents whose first / only member is named "" (gjson would answer for
+	// other spellings of that name, the empty path must not). Would expose: the guard dropped or moved behind the lookup.
+	for i := 0; i < 200*c.Scale; i++ {
+		key := hx.Pick(r, []string{"", "", "a", "b"})
+		doc := `{` + q(key) + `:` + q(plain(0, 12)) + `,"a":` + q(plain(0, 12)) + `,"z":[` + q(plain(0, 6)) + `]}`
+		if key == "a" {
+			doc = `{"a":` + q(plain(0, 12)) + `,"":` + q(plain(0, 12)) + `}`
+		}
+		lim := r.Intn(8)
+		switch r.Intn(3) {
+		case 0:
+			c.Do("json-cut-empty-path", 8, hx.L(hx.L(hx.S(""), hx.I(lim)), hx.S(doc)), true)
+		case 1:
+			checkGjson(c, doc, "a")
+			c.Do("json-cut-empty-path", 8, hx.L(hx.L(hx.S(""), hx.I(lim)), hx.L(hx.S("a"), hx.I(r.Intn(8))), hx.S(doc)), true)
+		default:
+			checkGjson(c, doc, "a")
+			checkGjson(c, doc, "z.0")
+			c.Do("json-cut-empty-path", 8, hx.L(hx.L(hx.S("a"), hx.I(r.Intn(8))), hx.L(hx.S(""), hx.I(lim)), hx.L(hx.S("z.0"), hx.I(r.Intn(4))), hx.S(doc)), true)
+		}
 	}
 }
 
